@@ -6,7 +6,6 @@ import (
 	"math/rand"
 	"strconv"
 	"strings"
-	"unicode"
 	"unicode/utf8"
 
 	"verif/harness/core"
@@ -40,7 +39,7 @@ var floatPool = []float64{0, math.Copysign(0, -1), 1, -1, 1.5, -2.5, 255, 255.5,
 	math.MaxFloat64, math.SmallestNonzeroFloat64, math.NaN(), math.Inf(1), math.Inf(-1), 1e300, -1e19, 9.223372036854775e18, 0.5, 12345678}
 
 var strPool = []string{"", "a", "ab", "hello world", "Hello::wOrld::x", "  padded \t", "é", "日本語", "a'b", `a\b`, `"q"`, "line\nfeed",
-	"tab\there", "\x01ctl", "$var", "�", "x�y", "😀", "ß", "%d %!", "0", "-12", "àÉî::ôU", "::", "a::", "ÿµ", " nbsp ", "ǆemal", "İi", "ﬁ"}
+	"tab\there", "\x01ctl", "$var", "�", "x�y", "😀", "ß", "%d %!", "0", "-12", "àÉî::ôU", "::", "a::", "ÿµ", " nbsp ", "ǆemal", "İi", "ﬁ", "ǅ::ǈx", "ΑΒγδ σς", "привет::МИР", "ᾳ ᾼ", "ⅰⅱ Ⅲ", "ｆｕｌｌ", "𐐨𐐀 deseret", "ſtraße", "Ǉ", "ɐʞ", "ꙁꙀ"}
 
 var badStrPool = []string{"\xff\xfe", "a\xc3", "\xed\xa0\x80"}
 
@@ -92,18 +91,8 @@ func thoroughValues() []sx.Sexp {
 
 // ---- what the Lean model covers (everything else is sent with a leading '@': implementation only) --------------------------
 
-// runes whose case mapping the model knows: ASCII, Latin-1, and everything Go maps to itself
-func caseModelled(s string) bool {
-	for _, r := range s {
-		if r < 0x100 {
-			continue
-		}
-		if unicode.ToUpper(r) != r || unicode.ToLower(r) != r {
-			return false
-		}
-	}
-	return true
-}
+// the model maps case with Go's own table (regenerated from $GOROOT/src/unicode/tables.go): every valid string is modelled
+func caseModelled(s string) bool { return true }
 
 func scalarModelled(e sx.Sexp, d dir) bool {
 	if !d.ok {
@@ -557,6 +546,15 @@ func gen(g *core.G) {
 						}
 					}
 				}
+			}
+		}
+	}
+
+	// (1b) every pool string under the case and trim letters (Go's case table is a regenerated fact of the model)
+	for _, str := range strPool {
+		for _, l := range "cCudt" {
+			for _, fl := range []string{"", "#", "-12.6"} {
+				emitFmt(g, ctx1("kind", "%"+fl+string(l)), vs(str))
 			}
 		}
 	}
